@@ -92,7 +92,12 @@ where
         y.identities.insert(id, *key_bundle.identity_key());
         y.longterm_bundles
             .entry(id)
-            .and_modify(|bundles| bundles.push(key_bundle.clone()))
+            .and_modify(|bundles| {
+                // Ignore duplicates, registering the same bundle again changes nothing.
+                if !bundles.contains(&key_bundle) {
+                    bundles.push(key_bundle.clone())
+                }
+            })
             .or_insert(vec![key_bundle]);
         Ok(y)
     }
